@@ -23,6 +23,11 @@ Definition ext_of_tables (uni : list (N * (bool * bool * bool))) (queries : list
 Definition uni_complete (uni : list (N * (bool * bool * bool))) (text : str) : bool :=
   forallb (fun c => (c <? 128) || match uni_lookup c uni with Some _ => true | None => false end) text.
 
+(* the hypothesis UnicodeSane of the round-trip theorems, checked on the table of the case: a
+   whitespace character is neither alphabetic nor alphanumeric *)
+Definition uni_sane (uni : list (N * (bool * bool * bool))) : bool :=
+  forallb (fun row => match row with (_, (a, n, w)) => negb w || (negb a && negb n) end) uni.
+
 (* ------------------------------------------------------------------ equality of ASTs *)
 Definition loc_eqb (a b : loc) : bool := (fst a =? fst b) && (snd a =? snd b).
 Definition opt_eqb {A} (eqb : A -> A -> bool) (a b : option A) : bool :=
@@ -207,7 +212,8 @@ Definition compare_obs (r : PRes) (obs : iobs) (intended_ok : bool) : N :=
 
 Definition c07_model (text : str) (uni : list (N * (bool * bool * bool))) (queries : list (N * N * qverdict))
     (merged : list (str * bool)) (regexes : list (str * bool)) : PRes :=
-  if uni_complete uni text then parse (ext_of_tables uni queries merged regexes) (fuel_of text) text
+  if uni_complete uni text && uni_sane uni
+  then parse (ext_of_tables uni queries merged regexes) (fuel_of text) text
   else PMiss.
 
 Definition c07_verdict (text : str) (uni : list (N * (bool * bool * bool))) (queries : list (N * N * qverdict))
